@@ -69,6 +69,26 @@ def ev(e, env):
 def _ev_ext(e, env):
     """expression forms needed by run_block on top of ``ev``: slices, tuple concatenation / integer arithmetic,
     ``seq.index(x)``, ``tuple(<generator>)``, generator / list comprehensions with one generator, conditional expressions."""
+    if isinstance(e, ast.Attribute):
+        # attribute of an object modelled by the caller (abstract node, `self`, a namespace of constructors)
+        base = _ev_ext(e.value, env)
+        try:
+            return getattr(base, e.attr)
+        except AttributeError:
+            raise Unknown(ast.unparse(e))
+    if isinstance(e, ast.Call) and isinstance(e.func, ast.Attribute) and e.func.attr != 'index':
+        fn = _ev_ext(e.func, env)
+        if not callable(fn):
+            raise Unknown(ast.unparse(e.func))
+        args = [_ev_ext(a, env) for a in e.args if not isinstance(a, ast.Starred)]
+        kws = {k.arg: _ev_ext(k.value, env) for k in e.keywords if k.arg is not None}
+        return fn(*args, **kws)
+    if isinstance(e, ast.Call) and isinstance(e.func, ast.Name) and e.func.id in ('any', 'all') and len(e.args) == 1:
+        vals = [bool(v) for v in _ev_ext(e.args[0], env)]
+        return any(vals) if e.func.id == 'any' else all(vals)
+    if isinstance(e, ast.BinOp) and isinstance(e.op, (ast.BitAnd, ast.BitOr)):
+        a, b = _ev_ext(e.left, env), _ev_ext(e.right, env)
+        return (a & b) if isinstance(e.op, ast.BitAnd) else (a | b)
     if isinstance(e, ast.Subscript) and isinstance(e.slice, ast.Slice):
         v = _ev_ext(e.value, env)
         lo = _ev_ext(e.slice.lower, env) if e.slice.lower is not None else None
@@ -164,9 +184,34 @@ def _bind(target, value, env):
 ev_ext = _ev_ext
 
 
+class Returned(Exception):
+    def __init__(self, value):
+        super().__init__('return')
+        self.value = value
+
+
+def run_function(fnode, env):
+    """Execute the body of a function definition over ``env``; returns the value of the first ``return`` reached."""
+    body = fnode.body
+    if body and isinstance(body[0], ast.Expr) and isinstance(body[0].value, ast.Constant):
+        body = body[1:]
+    try:
+        run_block(body, env)
+    except Returned as r:
+        return r.value
+    return None
+
+
 def run_block(stmts, env):
     """Execute straight-line assignments / if statements over tuples, strings and integers in ``env`` (modified in place)."""
     for st in stmts:
+        if isinstance(st, ast.Return):
+            raise Returned(_ev_ext(st.value, env) if st.value is not None else None)
+        if isinstance(st, ast.For):
+            for x in _ev_ext(st.iter, env):
+                _bind(st.target, x, env)
+                run_block(st.body, env)
+            continue
         if isinstance(st, ast.Assign):
             v = _ev_ext(st.value, env)
             for t in st.targets:
